@@ -305,7 +305,43 @@ def views_inconsistent(ct: str, v: dict) -> list[str]:
     return sorted(set(bad))
 
 
+def replay(ck: Check, which: str):
+    """./check Cxx --replay replays/Cxx/<hash>.json : re-run that one history
+    on the current tree and report what it shows now."""
+    import ast
+    import json
+    body = json.loads(open(ck.replay_path).read())
+    seed = body['replay'].get('history_seed')
+    alpha = circ_sim.Alphabet()
+    if isinstance(seed, str) and seed.startswith("('menu'"):
+        _, nq, seq = ast.literal_eval(seed)
+        sim = circ_sim.run_menu(alpha, nq, seq)
+    elif isinstance(seed, int):
+        sim = circ_sim.run_history(alpha, seed, 28)
+    else:
+        print('replay file has no re-runnable history (proof obligation or '
+              'correspondence entry): ' + json.dumps(body['replay'])[:500])
+        return
+    outs = ck.driver('circ', sim.lines)
+    h = dict(i=0, seed=seed, lines=sim.lines, impl=sim.impl, model=outs,
+             calls=sim.calls, internal=sim.internal_error,
+             ubad=sim.unitary_bad)
+    classify(ck, [h], which)
+    for c, i, m in zip(sim.calls, sim.impl, outs):
+        flag = '  ' if i.split(' # ')[:2] == m.split(' # ')[:2] else '!!'
+        print(f'{flag} {c[:110]}')
+        if flag == '!!':
+            print('     impl :', i[:300])
+            print('     model:', m[:300])
+            break
+    ck.coverage['rule'] = 'replay of one recorded history'
+    ck.sample({'calls': sim.calls[:30]})
+
+
 def run(ck: Check, which: str):
+    if ck.replay_path:
+        ck.lean_obligations()
+        return replay(ck, which)
     proved = ck.lean_obligations()
     thorough = ck.tier == 'thorough'
     n = 40000 if thorough else 2000
